@@ -13,6 +13,10 @@ import (
 )
 
 type Solver struct {
+	cross                                   int // cross-check every cross-th decided query with a second solver (0 = off)
+	nCross, nCrossAgree, nCrossInconclusive int
+	crossDisagree                           []string
+
 	name    string
 	cmd     *exec.Cmd
 	in      io.WriteCloser
@@ -339,7 +343,49 @@ func (s *Solver) Check(extra *Term) string {
 	} else {
 		s.nUnsat++
 	}
+	if s.cross > 0 && s.nCheck%s.cross == 0 {
+		s.crossCheck(ref, r)
+	}
 	return r
+}
+
+// crossCheck re-decides the current query (path assertions + extra) as one flat script with an independent
+// solver build (z3 5.1.0, "z3-new") and records agreement. A definite answer that differs from the primary
+// solver's is reported as a check problem by the caller of the run (never silently ignored).
+func (s *Solver) crossCheck(extraRef, primary string) {
+	f, err := os.CreateTemp("", "gosym-cross-*.smt2")
+	if err != nil {
+		return
+	}
+	defer os.Remove(f.Name())
+	var sb strings.Builder
+	if s.logic != "" {
+		sb.WriteString("(set-logic " + s.logic + ")\n")
+	}
+	for _, l := range s.pathLog {
+		sb.WriteString(l)
+		sb.WriteString("\n")
+	}
+	if extraRef != "" {
+		sb.WriteString("(assert " + extraRef + ")\n")
+	}
+	sb.WriteString("(check-sat)\n")
+	f.WriteString(sb.String())
+	f.Close()
+	s.nCross++
+	out, _ := exec.Command("z3-new", "-T:30", f.Name()).CombinedOutput()
+	first := strings.TrimSpace(string(out))
+	if i := strings.IndexByte(first, '\n'); i >= 0 {
+		first = strings.TrimSpace(first[:i])
+	}
+	switch {
+	case first == primary:
+		s.nCrossAgree++
+	case first == "sat" || first == "unsat":
+		s.crossDisagree = append(s.crossDisagree, fmt.Sprintf("z3 4.8.12 says %s, z3 5.1.0 says %s (query %d)", primary, first, s.nCheck))
+	default:
+		s.nCrossInconclusive++
+	}
 }
 
 // PopCheck closes the scope opened by Check.
